@@ -306,6 +306,9 @@ class ValueOps:
             return sv
         st = self.st
         if 'any' in sv.ty:
+            if self.spec_mode and want in ('str', 'int', 'bool'):
+                # specifications are total: the operand is read at the kind the operation needs
+                return self._unbox_kind(sv.term, want, frozenset([want]), assume=False)
             raise Unsupported('value of unknown type (any) used where a definite kind is needed')
         kinds = sorted({atom_kind(a) for a in sv.ty})
         if self.spec_mode and want in kinds:
@@ -419,7 +422,7 @@ class ValueOps:
                 return TRUE if a.const == b.const else FALSE
             except Exception:
                 pass
-        if self._has_eq(a) or self._has_eq(b):
+        if (self._has_eq(a) or self._has_eq(b)) and not self.spec_mode:     # `==` in specifications is structural
             if a.kind == 'val':
                 a = self.narrow(a)
             if b.kind == 'val':
